@@ -74,6 +74,52 @@ def call(e, st, fr, name, av, ins):
                 d[i] = x
         dealloc(e, st, p, old, al)
         return Ptr(o.id, 0)
+    # ---- liballoc's non-generic RawVecInner<Global> methods (instantiated inside the precompiled std, so not in the IR).
+    # Layout on the pinned toolchain (checked by the harness self-test h_selftest_vec): { cap: usize @0, ptr @8 }.
+    if 'raw_vec' in name and 'RawVecInner' in name and name.find('14grow_amortized') >= 0:
+        self_, ln, additional, al, esz = av
+        ln = _len(e, st, ln)
+        additional = _len(e, st, additional)
+        al = _len(e, st, al)
+        esz = _len(e, st, esz)
+        if esz == 0:
+            raise Unsupported("grow_amortized for zero-sized elements")
+        cap = e.load(st, self_, int_ty(64))
+        old = e.load(st, Ptr(self_.obj, self_.off + 8), T_PTR)
+        if is_sym(cap):
+            cap = e.concretize(st, cap)
+        required = ln + additional
+        new_cap = max(cap * 2, required, 8 if esz == 1 else (4 if esz <= 1024 else 1))
+        o = st.alloc(new_cap * esz, al, 'heap')
+        st.heap_live += 1
+        st.heap_bytes += new_cap * esz
+        st.events.append(('alloc', o.id, new_cap * esz, al))
+        if cap > 0:
+            so = e.obj_of(st, old, cap * esz, 'vec-grow-copy')
+            sd = so.data
+            d = o.data
+            for i in range(cap * esz):
+                x = sd.get(old.off + i)
+                if x is not None:
+                    d[i] = x
+            dealloc(e, st, old, cap * esz, al)
+        e.store(st, self_, int_ty(64), new_cap)
+        e.store(st, Ptr(self_.obj, self_.off + 8), T_PTR, Ptr(o.id, 0))
+        return ('aggv', [0x8000000000000001, 0])
+    if 'raw_vec' in name and (name.find('RawVecInner10deallocate') >= 0 or ('6RawVec' in name and name.endswith('4Drop4drop' + name[name.rfind('4Drop4drop') + 10:]) and '4Drop4drop' in name)):
+        self_ = av[0]
+        if name.find('RawVecInner10deallocate') >= 0:
+            al = _len(e, st, av[1])
+            esz = _len(e, st, av[2])
+        else:
+            al, esz = 1, 1  # RawVec<u8> as Drop
+        cap = e.load(st, self_, int_ty(64))
+        if is_sym(cap):
+            cap = e.concretize(st, cap)
+        if cap != 0 and esz != 0:
+            ptr = e.load(st, Ptr(self_.obj, self_.off + 8), T_PTR)
+            dealloc(e, st, ptr, cap * esz, al)
+        return None
     if name.endswith('handle_alloc_error'):
         raise Violation('abort', "handle_alloc_error reached although allocation never fails in the model")
     # ---- panics
